@@ -8,6 +8,7 @@ Line protocol of engine `filter` (property C02).
   filter web <filters> <T|F strong> <T|F robots> <rec> <info> <robots outcome> <resps> <tables>
       (resps: `;`-separated `A` | `F` | `D:<info>@<robots outcome for that target>`)
   filter ftp <filters> <rec> <info> <shape> <perm probe> <tables>
+  filter ftpchild <T|F item is a glob> <T|F entry is a directory> <item level>     -> level of the child record
 
 str = dot-separated hex (`-` empty); list of str = `/`-separated (`~` empty);
 info = `scheme,hostname,port,path,url` (hostname `None|=str`, port `None|n`), `None` for no info;
@@ -219,6 +220,10 @@ def handle : List String → String
     | some fs, some r, some u, some shape, some perm, some tb =>
       both tb (fun o => encEvs (ftpProcess o fs r u shape perm))
     | _, _, _, _, _, _ => "bad-arg"
+  | ["ftpchild", g, d, l] =>
+    match decBool? g, decBool? d, l.toNat? with
+    | some g, some d, some l => toString (listingChildLevel g d l)
+    | _, _, _ => "bad-arg"
   | _ => "bad-op"
 
 end Wpull.Filter
